@@ -24,7 +24,7 @@ func (C10) Plan(tier string) core.Plan {
 
 func (C10) Info() core.Info {
 	return core.Info{
-		Rule:        "general worlds (planned and random, all label features, cycles, generators) in which a Convert(T, args) and a Call of a simulator-made identity target func(T) T with the same options are run in one history (both orders), T concrete or interface, under the same seeded schedule; some providers return a nil struct pointer on every execution so that the converted value is the zero value of T. Oracle: on worlds in the stable classes of C05 (outcome independent of iteration order) Convert returns (v,nil) iff the Call succeeds; always: a returned value is assignable to T, its provenance PERMIT-matches a type-only parameter (T,\"\"), on failure the value is nil and the error non-nil; when the target's parameter resolution is unique (no converter involved, one candidate supply) both deliver the same token. One history in 25 converts to the type `error` (the simulated target is then literally func(error) error and hands back what it receives). A twelfth of the histories convert to a pool type and then, from disjoint options, to its twin: a distinct Go type that prints the same. Non-trivial: >=1 converter; distinct = distinct (world shape, event-log hash)",
+		Rule:        "general worlds (planned and random, all label features, cycles, generators) in which a Convert(T, args) and a Call of a simulator-made identity target func(T) T with the same options are run in one history (both orders), T concrete or interface, under the same seeded schedule; some providers return a nil struct pointer on every execution so that the converted value is the zero value of T. Oracle: on worlds in the stable classes of C05 (outcome independent of iteration order) Convert returns (v,nil) iff the Call succeeds; always: a returned value is assignable to T, its provenance PERMIT-matches a type-only parameter (T,\"\"), on failure the value is nil and the error non-nil; when the target's parameter resolution is unique (no converter involved, one candidate supply) both deliver the same token. One history in 25 converts to the type `error` (the simulated target is then literally func(error) error and hands back what it receives). A twelfth of the histories convert to a pool type and then, from disjoint options, to its twin: a distinct Go type that prints the same; target types include a pointer to an interface type. Non-trivial: >=1 converter; distinct = distinct (world shape, event-log hash)",
 		Assumptions: []string{"equivalence is asserted only on C05-stable worlds so that a legitimate difference in how many S1 choices the two entry points consume cannot be mistaken for disagreement"},
 		Probes:      []string{"c10_pairs", "c10_both_ok", "c10_both_fail", "c10_iface_target", "c10_value_checked", "c10_zero_value_converted", "c10_twin_type_pairs", "c10_generator_error_both", "c10_error_typed_target", "s1_nonidentity_perms"},
 		Real:        realComponents,
